@@ -109,10 +109,10 @@ Qed.
 
 (* the modelled writer emits the specification's encoding of the abstract state: the short form for an
    empty filter, the long form with the exact count otherwise, zeros in the unused fields *)
-Definition writer_variant (f : bloom) : variant := mkVar (if bf_is_empty f then FShort else FLongExact) 0 0.
+Definition writer_variant (f : bloom) : variant := mkVar (if bf_is_empty f then FShort else FLongExact) 0 0 0.
 
 Lemma enc_spec_hdr v a :
-  enc_spec v a = hdr (if is_short v then 3 else 4) (if is_short v then 4 else 0) (a_nh a) (v_pad16 v) (a_seed a) (a_nw a) (v_pad32 v)
+  enc_spec v a = hdr (if is_short v then 3 else 4) (flags_byte v) (a_nh a) (v_pad16 v) (a_seed a) (a_nw a) (v_pad32 v)
                  ++ match v_form v with
                     | FShort => []
                     | FLongExact => le_bytes 8 (a_count a) ++ flat_map (le_bytes 8) (a_words a)
@@ -123,7 +123,7 @@ Proof. reflexivity. Qed.
 Lemma serialize_is_enc_spec f : bf_serialize f = enc_spec (writer_variant f) (abs_of f).
 Proof.
   destruct layout_constants as (Cv & Cm & Cf & Cmin & Cmax & _).
-  unfold bf_serialize, enc_spec, writer_variant, is_short, abs_of. cbn [v_form v_pad16 v_pad32 a_nh a_seed a_nw a_words a_count].
+  unfold bf_serialize, enc_spec, writer_variant, flags_byte, is_short, abs_of. cbn [v_form v_pad16 v_pad32 v_flags a_nh a_seed a_nw a_words a_count].
   rewrite Cv, Cf. destruct (bf_is_empty f); rewrite ?Cm, ?Cmin, ?Cmax; reflexivity.
 Qed.
 
@@ -135,6 +135,18 @@ Proof.
   change (2 ^ 64) with 18446744073709551616. lia.
 Qed.
 
+(* bit 2 of the flags byte is the form, whatever the writer put into the other bits *)
+Lemma flags_byte_bit2 v : N.testbit (flags_byte v) 2 = is_short v.
+Proof.
+  unfold flags_byte. rewrite N.lor_spec, N.ldiff_spec. change (N.testbit 4 2) with true.
+  cbn [negb]. rewrite andb_false_r. destruct (is_short v); reflexivity.
+Qed.
+
+Lemma flags_byte_mask v : negb (N.land (flags_byte v) 4 =? 0) = is_short v.
+Proof.
+  change 4 with (2 ^ 2). rewrite land_pow2, flags_byte_bit2. destruct (is_short v); reflexivity.
+Qed.
+
 Theorem reader_accepts v a : abs_wf a -> variant_ok v a ->
   exists s, bf_deserialize (enc_spec v a) = Ok s /\ abs_of s = a.
 Proof.
@@ -143,16 +155,16 @@ Proof.
   change 18446744073709551616 with (2 ^ 64) in Hseed, Hws.
   rewrite enc_spec_hdr. unfold bf_deserialize.
   rewrite parse_header_hdr by (auto; destruct (is_short v); lia).
-  cbn [obind]. cbv beta iota. rewrite skipn_hdr.
+  cbn [obind]. cbv beta iota. rewrite skipn_hdr, flags_byte_mask.
   destruct a as [nh seed nw ws c]. cbn [a_nh a_seed a_nw a_words a_count] in *.
   unfold variant_ok in Hv. unfold is_short. destruct (v_form v) eqn:Ef.
   - (* short form *)
-    change (negb (N.land 4 4 =? 0)) with true. cbv iota.
+    cbv iota.
     eexists. split; [reflexivity|]. unfold abs_of. cbn [bf_nh bf_seed bf_used bf_words].
     specialize (Hv eq_refl). cbn [a_count] in Hv. assert (H0 : spec_count ws = 0) by congruence. rewrite Hv.
     rewrite repeat_length, N2Nat.id. rewrite <- Hlen. rewrite <- spec_count_zero by auto. reflexivity.
   - (* long form, exact count *)
-    change (negb (N.land 0 4 =? 0)) with false. cbv iota.
+    cbv iota.
     change (read_u64 (le_bytes 8 c ++ flat_map (le_bytes 8) ws))
       with (Some (le_val (le_bytes 8 c), flat_map (le_bytes 8) ws)).
     cbv iota beta. rewrite le_val_le_bytes. change (256 ^ N.of_nat 8) with (2 ^ 64). rewrite (N.mod_small c) by lia.
@@ -163,7 +175,7 @@ Proof.
     eexists. split; [reflexivity|]. unfold abs_of. cbn [bf_nh bf_seed bf_used bf_words].
     rewrite Hlen, N2Nat.id. reflexivity.
   - (* long form, dirty marker: the reader recounts *)
-    change (negb (N.land 0 4 =? 0)) with false. cbv iota.
+    cbv iota.
     change (read_u64 (le_bytes 8 18446744073709551615 ++ flat_map (le_bytes 8) ws))
       with (Some (le_val (le_bytes 8 18446744073709551615), flat_map (le_bytes 8) ws)).
     cbv iota beta. rewrite le_val_le_bytes. change (256 ^ N.of_nat 8) with (2 ^ 64).
@@ -226,13 +238,13 @@ Proof.
   intros Hwf Hv. pose proof (abs_count_lt a Hwf) as Hclt.
   destruct Hwf as [Hnh Hseed Hnw Hlen Hws Hc].
   change 18446744073709551616 with (2 ^ 64) in Hseed, Hws.
-  rewrite enc_spec_hdr. rewrite spec_decode_hdr by (auto; destruct (is_short v); lia).
+  rewrite enc_spec_hdr. rewrite spec_decode_hdr by (auto; destruct (is_short v); lia). rewrite flags_byte_bit2.
   destruct a as [nh seed nw ws c]. cbn [a_nh a_seed a_nw a_words a_count] in *.
   unfold variant_ok in Hv. unfold is_short. destruct (v_form v) eqn:Ef.
-  - change (N.testbit 4 2) with true. cbv iota.
+  - cbv iota.
     specialize (Hv eq_refl). cbn [a_count] in Hv. assert (H0 : spec_count ws = 0) by congruence. rewrite Hv.
     rewrite <- Hlen. rewrite <- spec_count_zero by auto. reflexivity.
-  - change (N.testbit 0 2) with false. cbv iota.
+  - cbv iota.
     rewrite app_length, le_bytes_length, flat_le8_length.
     replace (N.of_nat (24 + (8 + 8 * length ws)) <? 32 + 8 * nw) with false by lia.
     cbv zeta. rewrite firstn_app_exact by apply le_bytes_length. rewrite skipn_app_exact by apply le_bytes_length.
@@ -240,7 +252,7 @@ Proof.
     rewrite <- Hlen. rewrite <- (app_nil_r (flat_map (le_bytes 8) ws)), spec_words_flat by auto.
     replace (c =? 18446744073709551615) with false by (change (2 ^ 64) with 18446744073709551616 in Hclt; lia).
     rewrite <- Hc. replace (c =? c) with true by (symmetry; apply N.eqb_refl). reflexivity.
-  - change (N.testbit 0 2) with false. cbv iota.
+  - cbv iota.
     rewrite app_length, le_bytes_length, flat_le8_length.
     replace (N.of_nat (24 + (8 + 8 * length ws)) <? 32 + 8 * nw) with false by lia.
     cbv zeta. rewrite firstn_app_exact by apply le_bytes_length. rewrite skipn_app_exact by apply le_bytes_length.
@@ -400,6 +412,44 @@ Proof.
   intros H. injection H as <- _ _ _. reflexivity.
 Qed.
 
+(* ---------- the cost function is the reader's own: the instrumented reader IS the reader, and what it
+   allocates along its control flow is bf_alloc_bytes ---------- *)
+Lemma read_u64_len bs : match read_u64 bs with
+                        | Some (_, r) => length bs = (8 + length r)%nat
+                        | None => (length bs < 8)%nat
+                        end.
+Proof.
+  unfold read_u64.
+  destruct bs as [|b0 [|b1 [|b2 [|b3 [|b4 [|b5 [|b6 [|b7 r']]]]]]]]; cbn [length]; lia.
+Qed.
+
+Lemma parse_header_len bs e nh seed nl : bf_parse_header bs = Ok (e, nh, seed, nl) -> (24 <= length bs)%nat.
+Proof.
+  unfold bf_parse_header. cbv zeta.
+  destruct (length bs <? 4)%nat; [discriminate|].
+  destruct (negb (nth 2 bs 0 =? _)); [discriminate|].
+  destruct (negb (nth 1 bs 0 =? _)); [discriminate|].
+  destruct (_ || _); [discriminate|].
+  destruct (length bs <? 6)%nat; [discriminate|].
+  destruct (_ || _); [discriminate|].
+  destruct (Nat.ltb_spec (length bs) 24) as [|Hlen]; [discriminate|]. intros _. exact Hlen.
+Qed.
+
+Theorem deserialize_cost_spec bs :
+  fst (bf_deserialize_cost bs) = bf_deserialize bs /\ snd (bf_deserialize_cost bs) = bf_alloc_bytes bs.
+Proof.
+  unfold bf_deserialize_cost, bf_deserialize, bf_alloc_bytes.
+  destruct (bf_parse_header bs) as [[[[e nh] seed] nl]| |] eqn:Eh; cbn [obind fst snd]; auto.
+  pose proof (parse_header_len _ _ _ _ _ Eh) as Hlen.
+  destruct e; cbn [fst snd]; [auto|].
+  pose proof (read_u64_len (skipn 24 bs)) as Hr. rewrite skipn_length in Hr.
+  destruct (read_u64 (skipn 24 bs)) as [[raw rest]|].
+  - destruct (N.ltb_spec (N.of_nat (length rest)) (8 * nl)); cbn [fst snd].
+    + split; [reflexivity|]. replace (N.of_nat (length bs) <? 32 + 8 * nl) with true by lia. reflexivity.
+    + split; [reflexivity|]. replace (N.of_nat (length bs) <? 32 + 8 * nl) with false by lia. reflexivity.
+  - cbn [fst snd]. split; [reflexivity|]. replace (N.of_nat (length bs) <? 32 + 8 * nl) with true by lia. reflexivity.
+Qed.
+
 (* for ANY byte list: a long-form image never makes the reader allocate more than the input holds *)
 Theorem alloc_justified bs : long_form bs -> bf_alloc_bytes bs + 32 <= N.of_nat (length bs) \/ bf_alloc_bytes bs = 0.
 Proof.
@@ -408,6 +458,12 @@ Proof.
   assert (He : e = false) by (rewrite (parse_header_flag _ _ _ _ _ Eh), Hlf; reflexivity).
   subst e. destruct (N.ltb_spec (N.of_nat (length bs)) (32 + 8 * nl)); [right; reflexivity|left; lia].
 Qed.
+
+(* the same, stated on the reader's own path: whatever the outcome (Ok, or Err before or AFTER the allocation),
+   the instrumented reader never requests more than a long-form input holds *)
+Theorem reader_alloc_justified bs : long_form bs ->
+  snd (bf_deserialize_cost bs) + 32 <= N.of_nat (length bs) \/ snd (bf_deserialize_cost bs) = 0.
+Proof. intros H. rewrite (proj2 (deserialize_cost_spec bs)). apply alloc_justified, H. Qed.
 
 (* ... and the short form is the exception (known finding C14-bloom-empty-alloc): a 24-byte image flagged EMPTY that
    announces 2^26 words is charged 512 MiB, far above 64 * 24 + 1 MiB *)
